@@ -281,7 +281,10 @@ where
     }
 
     fn run(&self, ctx: &Ctx, known: &[KnownFinding]) -> LaneReport {
-        let cases = (self.cases)(ctx.tier);
+        // quick-tier counts in the property tables are per worker and were calibrated for ~1 s;
+        // the quick tier runs them x QUICK_SCALE so that every quick check does several seconds of work
+        let scale: u32 = if ctx.tier == Tier::Quick { std::env::var("VERIF_QUICK_SCALE").ok().and_then(|s| s.parse().ok()).unwrap_or(4) } else { 1 };
+        let cases = (self.cases)(ctx.tier).saturating_mul(scale);
         let rep = RefCell::new(LaneReport::new(self.name));
         rep.borrow_mut().exhaustive = false;
         if cases == 0 {
